@@ -125,6 +125,8 @@ struct SlotOps {
     void (*view_lookup)(const void *view, const double *x, uint64_t *bits) = nullptr;
     void (*view_write)(const void *view, const size_t *c, const uint64_t *bits) = nullptr;
     void (*view_read)(const void *view, const size_t *c, uint64_t *bits) = nullptr;
+    bool ref_output = false; // the view's lookup returns a reference into the storage (writable at its own coordinate type)
+    void (*view_write_at)(const void *view, const double *x, const uint64_t *bits) = nullptr;
 };
 
 extern const StackDesc g_stacks[];
